@@ -183,7 +183,7 @@ class World(object):
         self.max_depth = 0
         self.built = 0
         self.taps = {}
-        self.slots = [Slot(self, i, s) for i, s in enumerate(slot_specs)]
+        self.slots = [None if s is None else Slot(self, i, s) for i, s in enumerate(slot_specs)]
 
     def evaluate(self, slot_id, formula):
         slot = self.slots[slot_id]
@@ -198,7 +198,7 @@ class World(object):
             slot.frames.pop()
 
     def host_snapshot(self):
-        return C.dumps([[C.canon(o) for o in s.host_objects] for s in self.slots])
+        return C.dumps([[C.canon(o) for o in s.host_objects] for s in self.slots if s is not None])
 
     # -- script actions ----------------------------------------------------
     def act(self, slot, act, kind, name, args, setter, me):
